@@ -30,7 +30,9 @@ def _job(args):
         scan.gen_imports(rng, dirs, files, nested=False)
         base = scan.materialise(dirs, files)
         try:
-            for mp in [(root,)] + [d for d in dirs if len(d) == 2][:1]:
+            # module_path = root, and one directory at each depth below it (1, 2, 3+ levels below root)
+            mps = [(root,)] + [d for d in dirs if len(d) == 2][:1] + [d for d in dirs if len(d) == 3][:1] + [d for d in dirs if len(d) >= 4][:1]
+            for mp in mps:
                 full = scan.real_scan(base, root, mp)
                 if full[0] != "OK":
                     continue
@@ -104,7 +106,7 @@ def run(ctx: Ctx):
             ctx.violation(case, what, tags)          # matched against known_findings.json (K1) by its tags
         rules.merge_into(ctx, r)
     ctx.stat("projects", n)
-    ctx.rule = (f"{n} random projects x module_path in {{root, one sub-directory}} x level_limit k = 1..depth: limited scan vs the quotient of the unlimited scan (names truncated to k levels below module_path, "
+    ctx.rule = (f"{n} random projects x module_path in {{root, one directory each at 1, 2 and 3+ levels below root}} x level_limit k = 1..depth: limited scan vs the quotient of the unlimited scan (names truncated to k levels below module_path, "
                 "self edges dropped) and vs the model scan; C01's rule shapes over modules above the limit evaluated on both real architectures (verdict must coincide; rules with related subject/object are "
                 "known finding K1); non-trivial = limit that actually merges modules")
 
